@@ -311,6 +311,25 @@ def run(rep, db, tier, seed):
     rep.trusted += M.TRUSTED + env.TRUSTED + ['ByteFmt::decode of keys / signatures / hashes and str::parse return an arbitrary Ok/Err (their implementations, incl. blst/ed25519 FFI, are not executed)',
                                                'prost/quick-protobuf wire parsing (bytes -> proto struct) is outside: the sweep starts from an arbitrary proto struct']
     rep.bounds = dict(repeated_fields='<= 2 elements (1 at nesting depth fallback)', nesting_depth='<= 3 (Option = None / empty Vec beyond)', scalars='fully symbolic', byte_strings='symbolic length < 2^32, opaque content')
+    # ---- validly signed but semantically absurd consensus messages must not panic a HANDLER either: the one-step exploration of the
+    # replica handlers (shared with C03 / C05) is run for its panic paths only. It runs in a background thread (its work is done by
+    # forked worker processes) while the sweeps and the Kani part below proceed; joined before the verdict.
+    import multiprocessing as mp
+    def handlers_child(q):
+        try:
+            import framework as F2
+            from props import replica_checks as RC
+            rep2 = F2.Report(PROP, tier, seed)
+            RC.run_all(rep2, db, tier, ('C10',))
+            q.put(dict(viol=[(v.key, v.text, v.replay_path, v.reproduced) for v in rep2.violations],
+                       obl=[(o.name, o.status, getattr(o, 'detail', '') or '', o.extra.get('paths') if hasattr(o, 'extra') else None) for o in rep2.obligations],
+                       stats=dict(paths=rep2.paths, queries=rep2.queries, solver_s=rep2.solver_s, steps=rep2.steps, functions=rep2.functions, models=rep2.models),
+                       nontrivial=rep2.nontrivial, replayed=rep2.replayed))
+        except BaseException as u:      # noqa
+            q.put(dict(error=f'{type(u).__name__}: {u}'))
+    hq = mp.get_context('fork').Queue()
+    hproc = mp.get_context('fork').Process(target=handlers_child, args=(hq,), daemon=False)
+    hproc.start()          # forked before this process makes its first solver call
     n = sweep(rep, db, tier)
     absurd_messages(rep, db, tier)
     from props import c10_frames
@@ -353,4 +372,17 @@ def run(rep, db, tier, seed):
             rep.add(Obligation(f'verify totality via timeout_qc N={N}', 'violated' if pan else 'discharged', paths=npaths))
     except Unmodelled as u:
         rep.add(Obligation('verify totality', 'inconclusive', str(u)[:400]))
+    try:
+        hres = hq.get(timeout=5400)
+    except Exception as u:
+        hres = dict(error=f'no result from the handler exploration: {type(u).__name__}')
+    hproc.join(30)
+    if 'error' in hres:
+        rep.add(Obligation('replica handlers: no panic on any input', 'inconclusive', hres['error'][:600]))
+    else:
+        F.absorb_stats_dict(rep, hres['stats']); rep.nontrivial += hres['nontrivial']; rep.replayed += hres['replayed']
+        for key, text, path, repro in hres['viol']:
+            rep.violation(Violation(PROP, key, text, path, repro))
+        for name, status, detail, paths in hres['obl']:
+            rep.add(Obligation('no panic: ' + name, status, detail))
     rep.extra['explanation'] = 'totality of every ProtoFmt::read body and of the pre-verification view extraction over all symbolic proto messages within the nesting/length bound; std_conv converters and the mux header codec decided bit-precisely by Kani'
